@@ -353,3 +353,93 @@ Example c13_nonvacuous_metrics :
   exists f1 pr rc, f1_scores [0; 1; 1; -1; 2]%Z [0; 1; 0; 1; 2]%Z = Some (f1, pr, rc) /\
                    accuracy [0; 1; 1; -1; 2]%Z [0; 1; 0; 1; 2]%Z = Some (3 # 4)%Q.
 Proof. do 3 eexists. split; vm_compute; reflexivity. Qed.
+
+(* =========================================================================================== *)
+(** * The classification metrics as REGENERATED FROM sknetwork/classification/metrics.py
+
+    [src_cls_accuracy / _confusion / _f1 / _precisions / _recalls / _f1_only / _micro / _macro / _weighted] (Gen/NpClsMetrics.v)
+    are the bodies of get_accuracy_score, get_confusion_matrix, get_f1_scores (its three vectors) and the three branches of
+    get_average_f1_score, translated on every run by harness/translators/npclsmetrics.py into the array language of
+    Model/NpVec.v (calls between these functions inlined); [rvdenote] is that language's NumPy / SciPy semantics over R.
+    For ALL label vectors of equal length: with at least one counted sample (both labels non-negative) the denotations are
+    the confusion-matrix definitions below; without one, every function is undefined (the ValueError of the source).
+    [cnt lt lp i j] is the number of counted samples with true label i and predicted label j, [row_total] / [col_total] its
+    row and column sums over the K = largest label + 1 classes. *)
+From SKN Require Import Model.NpExpr Model.NpVec Gen.NpClsMetrics Proofs.NpVecProofs Proofs.NpClsMetricsProofs.
+From Coq Require Import Reals Lra.
+Local Open Scope R_scope.
+
+Theorem source_metrics_confusion (lt lp : list Z) :
+  List.length lp = List.length lt -> has_counted lt lp ->
+  exists f, rvdenote (env_cls lt lp) src_cls_confusion = Some (WM (klab lt lp) (klab lt lp) f) /\
+    (forall i j, f i j = cnt lt lp i j) /\
+    lsum (seq 0 (klab lt lp)) (fun i => lsum (seq 0 (klab lt lp)) (f i)) = INR (ncounted lt lp).
+Proof. exact (NpClsMetricsProofs.source_cls_confusion lt lp). Qed.
+Print Assumptions source_metrics_confusion.
+
+(** accuracy = agreeing counted samples / counted samples = trace / total of the count matrix; micro-F1 is the same number *)
+Theorem source_metrics_accuracy (lt lp : list Z) :
+  List.length lp = List.length lt -> has_counted lt lp ->
+  exists x, rvdenote (env_cls lt lp) src_cls_accuracy = Some (WS x) /\
+    x = agree lt lp / INR (ncounted lt lp) /\
+    x = lsum (seq 0 (klab lt lp)) (fun k => cnt lt lp k k) / lsum (seq 0 (klab lt lp)) (row_total lt lp) /\
+    rvdenote (env_cls lt lp) src_cls_micro = Some (WS x).
+Proof. exact (NpClsMetricsProofs.source_cls_accuracy lt lp). Qed.
+Print Assumptions source_metrics_accuracy.
+
+(** recall = TP / row sum, precision = TP / column sum, F1 = 2 TP / (row sum + column sum), 0 where the denominator is null;
+    get_f1_scores(..., False) returns the same F1 vector *)
+Theorem source_metrics_f1_scores (lt lp : list Z) :
+  List.length lp = List.length lt -> has_counted lt lp ->
+  exists F P Rc,
+    rvdenote (env_cls lt lp) src_cls_f1 = Some (WV (klab lt lp) F) /\
+    rvdenote (env_cls lt lp) src_cls_precisions = Some (WV (klab lt lp) P) /\
+    rvdenote (env_cls lt lp) src_cls_recalls = Some (WV (klab lt lp) Rc) /\
+    rvdenote (env_cls lt lp) src_cls_f1_only = Some (WV (klab lt lp) F) /\
+    forall k, (k < klab lt lp)%nat ->
+      Rc k = pos_div (cnt lt lp k k) (row_total lt lp k) /\
+      P k = pos_div (cnt lt lp k k) (col_total lt lp k) /\
+      F k = f1_def (cnt lt lp k k) (row_total lt lp k) (col_total lt lp k).
+Proof. exact (NpClsMetricsProofs.source_cls_f1_scores lt lp). Qed.
+Print Assumptions source_metrics_f1_scores.
+
+(** macro = mean of F1 over ALL K labels (absent labels count as 0) *)
+Theorem source_metrics_macro (lt lp : list Z) :
+  List.length lp = List.length lt -> has_counted lt lp ->
+  exists x, rvdenote (env_cls lt lp) src_cls_macro = Some (WS x) /\
+    x = lsum (seq 0 (klab lt lp)) (fun k => f1_def (cnt lt lp k k) (row_total lt lp k) (col_total lt lp k)) / INR (klab lt lp).
+Proof. exact (NpClsMetricsProofs.source_cls_macro lt lp). Qed.
+Print Assumptions source_metrics_macro.
+
+(** weighted = the F1 of the true class, averaged over the samples that have a true label *)
+Theorem source_metrics_weighted (lt lp : list Z) :
+  List.length lp = List.length lt -> has_counted lt lp ->
+  exists x, rvdenote (env_cls lt lp) src_cls_weighted = Some (WS x) /\
+    x = lsum (seq 0 (List.length lt))
+          (fun p => if tmask lt p
+                    then f1_def (cnt lt lp (Z.to_nat (zl lt p)) (Z.to_nat (zl lt p))) (row_total lt lp (Z.to_nat (zl lt p)))
+                                (col_total lt lp (Z.to_nat (zl lt p)))
+                    else 0)
+        / lsum (seq 0 (List.length lt)) (fun p => b2r (tmask lt p)).
+Proof. exact (NpClsMetricsProofs.source_cls_weighted lt lp). Qed.
+Print Assumptions source_metrics_weighted.
+
+(** no counted sample: every metric is undefined *)
+Theorem source_metrics_undefined (lt lp : list Z) :
+  List.length lp = List.length lt -> ncounted lt lp = O ->
+  rvdenote (env_cls lt lp) src_cls_confusion = None /\ rvdenote (env_cls lt lp) src_cls_accuracy = None /\
+  rvdenote (env_cls lt lp) src_cls_f1 = None /\ rvdenote (env_cls lt lp) src_cls_precisions = None /\
+  rvdenote (env_cls lt lp) src_cls_recalls = None /\ rvdenote (env_cls lt lp) src_cls_f1_only = None /\
+  rvdenote (env_cls lt lp) src_cls_macro = None /\ rvdenote (env_cls lt lp) src_cls_weighted = None.
+Proof.
+  intros Hl Hc. split; [exact (NpClsMetricsProofs.source_cls_confusion_none lt lp Hl Hc)|].
+  split; [exact (NpClsMetricsProofs.source_cls_accuracy_none lt lp Hl Hc)|].
+  exact (NpClsMetricsProofs.source_cls_f1_scores_none lt lp Hl Hc).
+Qed.
+Print Assumptions source_metrics_undefined.
+
+Example c13_nonvacuous_source_metrics :
+  List.length (0 :: 1 :: 0 :: 1 :: 2 :: nil)%Z = List.length (0 :: 1 :: 1 :: (-1) :: 2 :: nil)%Z /\
+  has_counted (0 :: 1 :: 1 :: (-1) :: 2 :: nil)%Z (0 :: 1 :: 0 :: 1 :: 2 :: nil)%Z /\
+  ncounted ((-1) :: 0 :: nil)%Z (0 :: (-1) :: nil)%Z = O.
+Proof. split; [reflexivity|]. split; [unfold has_counted; vm_compute; discriminate | vm_compute; reflexivity]. Qed.
